@@ -345,7 +345,9 @@ func (w *Walker) walkFrom(b, pred *ssa.BasicBlock, p *PState, start int) {
 		}
 		return
 	}
-	if w.Sig != nil && len(b.Preds) > 1 {
+	// no merging inside an inlined helper: the live-value signature of a helper block says nothing
+	// about the caller's continuation (which call site, which facts of the caller)
+	if w.Sig != nil && len(b.Preds) > 1 && len(p.stack) == 0 {
 		sg := w.signature(b, pred, p)
 		if w.seenSig == nil {
 			w.seenSig = map[*ssa.BasicBlock]map[string]bool{}
@@ -1316,6 +1318,9 @@ func (p *PState) NeGlobal(v ssa.Value, g *ssa.Global) bool {
 	}
 	return false
 }
+
+// Visited: the path went through block b.
+func (p *PState) Visited(b *ssa.BasicBlock) bool { return p.visits[b] > 0 }
 
 func (p *PState) BoolOf(v ssa.Value) (val, known bool) {
 	v = p.Resolve(v)
